@@ -27,7 +27,28 @@ CLAIMED = {
         "text": "Exact structural rules: no field that feeds the Hash of LintContext is of type Span or an integer that any workspace function assigns from a token-index source (this found Quote.twin_loc, now repaired); ignore_lint and is_ignored hash through one function with identical argument roles and insert/contains that hash; remove_ignored retains exactly !is_ignored; from_lint copies kind, suggestions, message, priority from the lint; IgnoredLints and the wasm export/import use a symmetric serde codec and import is a union.",
         "note": "Not decided: hash collisions; the arithmetic that selects the 2-character neighbourhood.",
     },
+    "C13": {
+        "level": "other",
+        "ref": "DESIGN.md section 3, C13",
+        "technique": "effect census on the lint vector (only length/sort/read/remove_indices; retain closure ignores its element), provenance of the removal queue (ascending enumerate counter), dominance of every consumption of the lints by remove_overlaps in the wasm and CLI paths",
+        "text": "Decides the sub-list clause for every input (nothing invented, nothing altered: the only mutation is Vec::retain with an element-blind predicate after a sort), the sortedness precondition of remove_indices, and that the JS API and the CLI cannot hand out lints that skipped overlap removal.",
+        "note": "Not decided (value-level, left to dynamic/symbolic techniques): that the kept lints are pairwise disjoint and that each dropped lint starts inside a kept one — that depends on the sort key (start, !0-end) and the sweep arithmetic.",
+    },
+    "C16": {
+        "level": "other",
+        "ref": "DESIGN.md section 3, C16",
+        "technique": "must-pass-through / dominance ordering of the wasm Linter::lint pipeline with same-value provenance (document, lint vector, source vector), provenance rules for ignore_lint/apply_suggestion/import_words/synchronize_lint_dict, serde attribute audit of the exported types",
+        "text": "Decides the pipeline and same-source clauses: lint() runs new_from_vec -> overlay -> lint -> restore -> remove_overlaps -> remove_ignored on one Document and one lint vector and takes problem_text from the very source vector the Document was built from; ignore_lint/apply_suggestion rebuild the Document with the lint's language and the linter's dictionary and apply the suggestion at the lint's span to the supplied text; import_words/synchronize_lint_dict rebuild dictionary and rule group and keep the user's config; Lint/Suggestion/Span JSON codecs are symmetric.",
+        "note": "Not decided: value-level consistency across call sequences (returned spans inside the text, equality after export/import).",
+    },
+    "C19": {
+        "level": "other",
+        "ref": "DESIGN.md section 3, C19",
+        "technique": "type-resolved formatter check and must-pass-through newline rule in Stats::write, sibling agreement with Stats::read, OpenOptions builder-chain operand check, serde attribute audit of the Record type graph, loop-nesting rule for the counters",
+        "text": "Decides the format discipline that makes the log line-delimited and append-only: each record is written by serde_json's compact serializer (formatter type resolved by rustc) followed on every path by exactly one newline with errors propagated; read() parses lines().next() with from_str::<Record> and pushes in order; save_stats opens with append(true) and never truncates; import_stats_file appends; every type under Record derives both serde traits without asymmetric attributes; an applied lint is counted once.",
+        "note": "Trusted: serde_json's compact formatter escapes control characters. Not decided: value round trip of each field (e.g. non-finite floats serialise to null).",
+    },
 }
 
 _TODO = "static rules for this property are specified in DESIGN.md section 3 but not yet implemented and self-tested; unclaimed until they are"
-NOT_APPLICABLE = {k: _TODO for k in ["C01", "C02", "C03", "C04", "C05", "C06", "C07", "C08", "C09", "C12", "C13", "C16", "C17", "C18", "C19"]}
+NOT_APPLICABLE = {k: _TODO for k in ["C01", "C02", "C03", "C04", "C05", "C06", "C07", "C08", "C09", "C12", "C17", "C18"]}
